@@ -58,7 +58,11 @@ impl<F> RankCalc<F> {
                     // the rank computed from this iteration.
                     ranks[child_fn_id.index()] = cmp::max(child_rank_existing, child_rank_maybe);
 
-                    fn_ids.push_back(child_fn_id);
+                    // Only revisit a child whose rank was raised; revisiting it on every
+                    // edge walks every path of the graph, which is exponential.
+                    if child_rank_maybe > child_rank_existing {
+                        fn_ids.push_back(child_fn_id);
+                    }
                 });
         }
 
